@@ -1,5 +1,240 @@
 //! K4: front end (lexer, parser, analysis, formatter) on arbitrary texts.
-pub fn main(_args: &[String]) {
-    eprintln!("front: not implemented yet");
-    std::process::exit(2);
+//!
+//! `lv-harness front [timeout_ms]`
+//! stdin : one JSON string per line (the text, JSON-escaped)
+//! stdout: one JSON object per line
+//!   tokens : {"toks":[[kind,start,end],…], "diags":[…]}      | {"panic":true,"stage":"tokens","msg":…}
+//!   parse  : [diag,…] (lexer + parser diagnostics)            | {"panic":true,"stage":"parse"}
+//!   cst    : [[depth,"rule"|"token",kind,start,end],…]        | {"panic":true,"stage":"cst"} | null
+//!   sema   : [diag,…] (all diagnostics after SemanticPass)    | {"panic":true,"stage":"sema"} | null
+//!   render : {"ok":n} number of diagnostics rendered by codespan-reporting
+//!            | {"error":msg,"index":i} | {"panic":true,"stage":"render","index":i} | null
+//!   format : string                                           | {"panic":true,"stage":"format"} | null
+//!   format2: string (parse `format` again, format again)      | {"panic":true,"stage":"format2"} | null
+//! `null` means that the stage could not run because the stage it depends on panicked.
+//! Texts run on a thread with a 256 MB stack under a watchdog: a case that does not finish
+//! within the timeout prints {"hang":true} and the process exits with status 3 (the caller
+//! resumes after that case).  The thread is replaced after every case in which a stage panicked.
+use codespan_reporting::files::SimpleFile;
+use codespan_reporting::term;
+use lelwel::frontend::lexer::tokenize;
+use lelwel::frontend::parser::{Cst, Diagnostic, Node, NodeRef, Parser};
+use lelwel::frontend::sema::SemanticPass;
+use serde_json::{Value, json};
+use std::io::{BufRead, Write};
+use std::panic::{AssertUnwindSafe, catch_unwind};
+use std::sync::mpsc;
+use std::time::Duration;
+
+const STACK: usize = 256 << 20;
+
+fn payload_msg(p: &(dyn std::any::Any + Send)) -> String {
+    if let Some(s) = p.downcast_ref::<&str>() {
+        s.to_string()
+    } else if let Some(s) = p.downcast_ref::<String>() {
+        s.clone()
+    } else {
+        String::new()
+    }
+}
+
+/// `msg` is the panic message (first 300 characters), for the evidence and the replay files
+fn panicked(stage: &str, p: Box<dyn std::any::Any + Send>) -> Value {
+    let msg: String = payload_msg(&*p).chars().take(300).collect();
+    json!({"panic": true, "stage": stage, "msg": msg})
+}
+
+fn diags_json(ds: &[Diagnostic]) -> Value {
+    Value::Array(ds.iter().map(crate::diag_json).collect())
+}
+
+/// pre-order walk through the public API only (children / get / span); iterative so that the
+/// walk itself cannot overflow the stack
+fn walk(cst: &Cst<'_>) -> Value {
+    let mut out = vec![];
+    let mut stack: Vec<(NodeRef, usize)> = vec![(NodeRef::ROOT, 0)];
+    while let Some((n, depth)) = stack.pop() {
+        let span = cst.span(n);
+        match cst.get(n) {
+            Node::Rule(rule, _) => {
+                out.push(json!([depth, "rule", format!("{rule:?}"), span.start, span.end]));
+                let kids: Vec<NodeRef> = cst.children(n).collect();
+                for k in kids.into_iter().rev() {
+                    stack.push((k, depth + 1));
+                }
+            }
+            Node::Token(tok, _) => {
+                out.push(json!([depth, "token", format!("{tok:?}"), span.start, span.end]));
+            }
+        }
+    }
+    Value::Array(out)
+}
+
+fn render(source: &str, diags: &[Diagnostic]) -> Value {
+    let file = SimpleFile::new("<input>", source);
+    let config = term::Config::default();
+    for (i, d) in diags.iter().enumerate() {
+        let r = catch_unwind(AssertUnwindSafe(|| term::emit_into_string(&config, &file, d)));
+        match r {
+            Ok(Ok(_)) => {}
+            Ok(Err(e)) => return json!({"error": e.to_string(), "index": i}),
+            Err(p) => {
+                let mut v = panicked("render", p);
+                v["index"] = json!(i);
+                return v;
+            }
+        }
+    }
+    json!({"ok": diags.len()})
+}
+
+fn one(text: &str) -> Value {
+    // ---- lexer alone
+    let tokens = match catch_unwind(|| {
+        let mut d = vec![];
+        let (toks, spans) = tokenize(text, &mut d);
+        let toks: Vec<Value> = toks
+            .iter()
+            .zip(spans.iter())
+            .map(|(t, s)| json!([format!("{t:?}"), s.start, s.end]))
+            .collect();
+        json!({"toks": toks, "diags": diags_json(&d)})
+    }) {
+        Ok(v) => v,
+        Err(p) => panicked("tokens", p),
+    };
+
+    // ---- lexer + parser
+    let parsed = catch_unwind(|| {
+        let mut diags = vec![];
+        let cst = Parser::new(text, &mut diags).parse(&mut diags);
+        (cst, diags)
+    });
+    let (cst, pdiags) = match parsed {
+        Ok(x) => x,
+        Err(p) => {
+            return json!({"tokens": tokens, "parse": panicked("parse", p), "cst": null, "sema": null,
+                          "render": null, "format": null, "format2": null});
+        }
+    };
+    let parse = diags_json(&pdiags);
+
+    // ---- tree walk
+    let cst_json = match catch_unwind(AssertUnwindSafe(|| walk(&cst))) {
+        Ok(v) => v,
+        Err(p) => panicked("cst", p),
+    };
+
+    // ---- semantic analysis
+    let mut all = pdiags.clone();
+    let sema_res = catch_unwind(AssertUnwindSafe(|| {
+        let _sema = SemanticPass::run(&cst, &mut all);
+    }));
+    let sema_ok = sema_res.is_ok();
+    let sema = match sema_res {
+        Ok(()) => diags_json(&all),
+        Err(p) => panicked("sema", p),
+    };
+
+    // ---- rendering of every diagnostic (what the CLI does with them)
+    let rendered = render(text, if sema_ok { &all } else { &pdiags });
+
+    // ---- formatter, twice
+    let f1 = catch_unwind(AssertUnwindSafe(|| lelwel::backend::format::format(&cst)));
+    let (format, format2) = match f1 {
+        Err(p) => (panicked("format", p), Value::Null),
+        Ok(s1) => {
+            let f2 = catch_unwind(AssertUnwindSafe(|| {
+                let mut d = vec![];
+                let cst2 = Parser::new(&s1, &mut d).parse(&mut d);
+                lelwel::backend::format::format(&cst2)
+            }));
+            let v2 = match f2 {
+                Ok(s2) => json!(s2),
+                Err(p) => panicked("format2", p),
+            };
+            (json!(s1), v2)
+        }
+    };
+    json!({"tokens": tokens, "parse": parse, "cst": cst_json, "sema": sema, "render": rendered,
+           "format": format, "format2": format2})
+}
+
+/// A worker thread with a large stack.  It is reused for consecutive texts as long as no stage
+/// panicked; after a panic it retires (so that thread-local state of dprint-core left behind by
+/// the unwinding never leaks into the next case) and the next text gets a fresh thread.
+struct Worker {
+    tx: mpsc::Sender<String>,
+    rx: mpsc::Receiver<(String, bool)>,
+}
+
+fn has_panic(v: &Value) -> bool {
+    match v {
+        Value::Object(m) => m.values().any(|x| x.get("panic").is_some()),
+        _ => true,
+    }
+}
+
+fn spawn_worker() -> Worker {
+    let (tx_in, rx_in) = mpsc::channel::<String>();
+    let (tx_out, rx_out) = mpsc::channel::<(String, bool)>();
+    std::thread::Builder::new()
+        .stack_size(STACK)
+        .spawn(move || {
+            while let Ok(text) = rx_in.recv() {
+                let v = match catch_unwind(|| one(&text)) {
+                    Ok(v) => v,
+                    Err(_) => json!({"panic": true, "stage": "harness"}),
+                };
+                let dirty = has_panic(&v);
+                if tx_out.send((v.to_string(), dirty)).is_err() || dirty {
+                    break;
+                }
+            }
+        })
+        .expect("spawn");
+    Worker { tx: tx_in, rx: rx_out }
+}
+
+pub fn main(args: &[String]) {
+    std::panic::set_hook(Box::new(|_| {}));
+    let timeout_ms: u64 = args.first().and_then(|s| s.parse().ok()).unwrap_or(5000);
+    let out = std::io::stdout();
+    let stdin = std::io::stdin();
+    let mut worker: Option<Worker> = None;
+    for line in stdin.lock().lines() {
+        let Ok(line) = line else { break };
+        if line.trim().is_empty() {
+            continue;
+        }
+        let text: String = match serde_json::from_str(&line) {
+            Ok(Value::String(s)) => s,
+            _ => {
+                let mut o = out.lock();
+                writeln!(o, "{}", json!({"bad_input": true})).unwrap();
+                o.flush().unwrap();
+                continue;
+            }
+        };
+        let w = worker.take().unwrap_or_else(spawn_worker);
+        w.tx.send(text).expect("worker gone");
+        match w.rx.recv_timeout(Duration::from_millis(timeout_ms)) {
+            Ok((s, dirty)) => {
+                let mut o = out.lock();
+                writeln!(o, "{s}").unwrap();
+                o.flush().unwrap();
+                if !dirty {
+                    worker = Some(w);
+                }
+            }
+            Err(_) => {
+                // hang (or the worker died without an answer): report and let the caller resume
+                let mut o = out.lock();
+                writeln!(o, "{}", json!({"hang": true})).unwrap();
+                o.flush().unwrap();
+                std::process::exit(3);
+            }
+        }
+    }
 }
